@@ -242,17 +242,25 @@ def run(ctx, res):
             res.hit('C14:send', 'message.send does not emit prefix+payload',
                     {'kind': 'send', 'payload_len': len(m)})
         stream = bytearray(frame(m) + b'tail')
+        sizes = []
 
-        def recv(k, stream=stream, r=r):
+        def recv(k, stream=stream, r=r, sizes=sizes):
             k = r.randrange(1, k + 1) if k > 1 else k
             out = bytes(stream[:k])
             del stream[:k]
+            sizes.append(len(out))
             return out
 
-        back = ch.message.receive(types.SimpleNamespace(recv=recv))
+        try:
+            back = ch.message.receive(types.SimpleNamespace(recv=recv))
+        except Exception as e:  # pylint: disable=broad-except
+            back = ('raised', type(e).__name__)
         if back != m or bytes(stream) != b'tail':
-            res.hit('C14:receive', 'message.receive does not return the framed payload',
-                    {'kind': 'receive', 'payload_len': len(m)})
+            res.hit('C14:receive',
+                    f'message.receive does not return the framed payload of {len(m)} bytes delivered in pieces of '
+                    f'{sizes[:12]}: got {back if isinstance(back, tuple) else "other bytes"}, '
+                    f'{len(stream)} bytes left in the socket (expected 4)',
+                    {'kind': 'receive', 'payload_len': len(m), 'pieces': sizes[:64]})
         res.count('send/receive')
     if len(m) < 300:
         pass
